@@ -12,11 +12,24 @@
         plus a linear function of the input length, whatever lengths the input declares.
   * `sinks_never_panic` : every token the decoders can produce is handled by every encoder without panic
         (C14), so decoder-to-encoder pumps return a value or an error too.
+
+  Proof method (RefmtProofs/Lemmas/Bounds.lean; independent of the reference parsers of C04/C05):
+  * CBOR: every `step` that yields a token strictly decreases `2·|undelivered bytes| + |left|` (`left` = the
+    stack of definite-container countdowns): it either consumes a byte (and opens at most one definite
+    container) or closes a definite container.  JSON: every step that yields a token consumes a byte.
+    Hence a run with fuel above that measure never reaches the fuel-exhausted case, and its whole result
+    record (tokens, outcome, reader, steps, alloc) is independent of any extra fuel.  These facts hold for an
+    arbitrary reader (injected faults, push-back): see the `_any_reader` versions below.
+  * allocation: every step that yields a token allocates at most 8 bytes per input byte it consumed; a
+    failing step (necessarily the last) allocates at most `2·cap32M + 64` beyond that.  The factor 2 and the
+    factor 8 are both needed: the bound as stated is tight up to an additive constant < 1 KiB (see the remarks
+    and kernel-checked examples at the end of this file).
 -/
 import RefmtModel
 import RefmtProofs.Props.C04
 import RefmtProofs.Props.C05
 import RefmtProofs.Props.C14
+import RefmtProofs.Lemmas.Bounds
 set_option linter.unusedSimpArgs false
 set_option linter.unusedVariables false
 namespace Refmt.C06
@@ -26,24 +39,91 @@ theorem cbor_terminates (coerce : Bool) (bs : Bytes) (hb : ∀ x ∈ bs, x < 256
     let a := CborDec.run coerce fuel CborDec.init (Rd.ofBytes bs) [] 0 0
     let b := CborDec.decode coerce (Rd.ofBytes bs)
     a.toks = b.toks ∧ a.res = b.res ∧ a.rd = b.rd ∧ a.steps = b.steps ∧ a.alloc = b.alloc := by
-  sorry
+  intro a b
+  have hab : a = b := by
+    show CborDec.run coerce fuel CborDec.init (Rd.ofBytes bs) [] 0 0 = CborDec.decode coerce (Rd.ofBytes bs)
+    unfold CborDec.decode
+    have hd : (Rd.ofBytes bs).data.length = bs.length := rfl
+    rw [hd]
+    obtain ⟨k, rfl⟩ : ∃ k, fuel = (2 * bs.length + 2) + k := ⟨fuel - (2 * bs.length + 2), by omega⟩
+    exact Cbor.run_fuel coerce k _ _ _ _ _ _ (by rw [hd]; simp [CborDec.init])
+  rw [hab]
+  exact ⟨rfl, rfl, rfl, rfl, rfl⟩
 
 theorem json_terminates (bs : Bytes) (fuel : Nat) (hf : 2 * bs.length + 2 ≤ fuel) :
     let a := JsonDec.run fuel JsonDec.init (Rd.ofBytes bs) [] 0
     let b := JsonDec.decode (Rd.ofBytes bs)
     a.toks = b.toks ∧ a.res = b.res ∧ a.rd = b.rd ∧ a.steps = b.steps := by
-  sorry
+  intro a b
+  have hab : a = b := by
+    show JsonDec.run fuel JsonDec.init (Rd.ofBytes bs) [] 0 = JsonDec.decode (Rd.ofBytes bs)
+    unfold JsonDec.decode
+    have hd : (Rd.ofBytes bs).data.length = bs.length := rfl
+    rw [hd]
+    obtain ⟨k, rfl⟩ : ∃ k, fuel = (2 * bs.length + 2) + k := ⟨fuel - (2 * bs.length + 2), by omega⟩
+    exact Json.run_fuel k _ _ _ _ _ (by rw [hd]; omega)
+  rw [hab]
+  exact ⟨rfl, rfl, rfl, rfl⟩
 
 theorem cbor_steps_bound (coerce : Bool) (rd : Rd) : (CborDec.decode coerce rd).steps ≤ 2 * rd.data.length + 2 := by
-  sorry
+  have := Cbor.run_steps coerce (2 * rd.data.length + 2) CborDec.init rd [] 0 0
+  unfold CborDec.decode
+  omega
 
 theorem json_steps_bound (rd : Rd) : (JsonDec.decode rd).steps ≤ 2 * rd.data.length + 2 := by
-  sorry
+  have := Json.run_steps (2 * rd.data.length + 2) JsonDec.init rd [] 0
+  unfold JsonDec.decode
+  omega
 
 /-- allocation of the CBOR decoder model: at most twice the built-in cap, plus linear in the input -/
 theorem cbor_alloc_bound (coerce : Bool) (bs : Bytes) :
     (CborDec.decode coerce (Rd.ofBytes bs)).alloc ≤ 2 * CborDec.cap32M + 8 * bs.length + 64 := by
-  sorry
+  have := Cbor.run_alloc coerce (2 * (Rd.ofBytes bs).data.length + 2) CborDec.init (Rd.ofBytes bs) [] 0 0
+  have hd : (Rd.ofBytes bs).data.length = bs.length := rfl
+  unfold CborDec.decode
+  omega
+
+/-! ### The same facts for an arbitrary reader (injected faults, pushed-back byte) and any start state -/
+
+theorem cbor_terminates_any_reader (coerce : Bool) (rd : Rd) (fuel : Nat) (hf : 2 * rd.data.length + 2 ≤ fuel) :
+    CborDec.run coerce fuel CborDec.init rd [] 0 0 = CborDec.decode coerce rd := by
+  obtain ⟨k, rfl⟩ : ∃ k, fuel = (2 * rd.data.length + 2) + k := ⟨fuel - (2 * rd.data.length + 2), by omega⟩
+  exact Cbor.run_fuel coerce k _ _ _ _ _ _ (by simp [CborDec.init])
+
+theorem json_terminates_any_reader (rd : Rd) (fuel : Nat) (hf : 2 * rd.data.length + 2 ≤ fuel) :
+    JsonDec.run fuel JsonDec.init rd [] 0 = JsonDec.decode rd := by
+  obtain ⟨k, rfl⟩ : ∃ k, fuel = (2 * rd.data.length + 2) + k := ⟨fuel - (2 * rd.data.length + 2), by omega⟩
+  exact Json.run_fuel k _ _ _ _ _ (by omega)
+
+theorem cbor_alloc_bound_any_reader (coerce : Bool) (rd : Rd) :
+    (CborDec.decode coerce rd).alloc ≤ 2 * CborDec.cap32M + 8 * rd.data.length + 64 := by
+  have := Cbor.run_alloc coerce (2 * rd.data.length + 2) CborDec.init rd [] 0 0
+  unfold CborDec.decode
+  omega
+
+/-- the allocation is also paid for by the bytes actually consumed, not just by those offered -/
+theorem cbor_alloc_bound_consumed (coerce : Bool) (rd : Rd) :
+    (CborDec.decode coerce rd).alloc + 8 * (CborDec.decode coerce rd).rd.data.length
+      ≤ 2 * CborDec.cap32M + 8 * rd.data.length + 64 := by
+  have := Cbor.run_alloc coerce (2 * rd.data.length + 2) CborDec.init rd [] 0 0
+  unfold CborDec.decode
+  omega
+
+/-! ### How tight `cbor_alloc_bound` is
+
+  * the cap term is needed: five bytes declaring a 32 MiB byte string allocate 32 MiB before the read fails;
+    six bytes opening an indefinite string whose first chunk declares 32 MiB allocate `16 + 32 + 32 MiB`;
+  * `8` per byte is needed: `9f (5f ff)ⁿ ff` allocates `16·n` for `2·n + 2` bytes;
+  * the factor `2` on the cap is needed (not kernel-checked, the witness has 20 971 613 bytes): an indefinite
+    string with chunks of 31, 32, 1, 63, 1, 127, …, 1, 2²²−1 (buffer capacity 2ᵏ−1, filled, doubled), then
+    2, 2²², 3·2²² bytes (capacity 13·2²²), then a chunk header declaring 2²⁵ bytes with no data behind it,
+    allocates 234 880 959 = 8·|input| + 2·cap32M − 809 bytes. -/
+
+example : (CborDec.decode false (Rd.ofBytes [0x5a, 2, 0, 0, 0])).alloc = CborDec.cap32M := by decide +kernel
+example : (CborDec.decode false (Rd.ofBytes [0x7f, 0x7a, 2, 0, 0, 0])).alloc = 16 + 32 + CborDec.cap32M := by
+  decide +kernel
+example : (CborDec.decode false (Rd.ofBytes [0x9f, 0x5f, 0xff, 0x5f, 0xff, 0x5f, 0xff, 0xff])).alloc = 48 := by
+  decide +kernel
 
 /-- whatever a decoder emits, no encoder panics on it -/
 theorem sinks_never_panic (c : JsonEnc.Cfg) (ff : Nat → Bytes) (ts : List Tok) :
